@@ -1028,14 +1028,19 @@ class LuaASTEchoWriter(BaseLuaWriter):
                 opens = 1
                 yield b' ('
         else:
+            # (A binary operator expression is positioned at its operator, so
+            # its first token is the first token of its leftmost operand.)
+            first = exp_prefix
+            while isinstance(first, parser.ExpBinOp):
+                first = first.exp1
             while True:
                 next_pos = self._pos
-                while (next_pos < exp_prefix.start_pos and
+                while (next_pos < first.start_pos and
                        isinstance(self._tokens[next_pos],
                                   (lexer.TokSpace, lexer.TokNewline,
                                    lexer.TokComment))):
                     next_pos += 1
-                if (next_pos >= exp_prefix.start_pos or
+                if (next_pos >= first.start_pos or
                         not self._tokens[next_pos].matches(
                             lexer.TokSymbol(b'('))):
                     break
